@@ -386,6 +386,162 @@ Eval vm_compute in ("EA1", "P", let d := tan_outs A_prog A_n [0%nat] in map (fun
 Eval vm_compute in ("EB1", "P", let d := tan_outs B_prog B_n [0%nat] in map (fun st => map (fun i => ib_out (nth 0 (evalIB PREC d (st ++ B_u i)) IB.nai)) DIRSB) B_inputs).
 "#;
 
+
+/// Quantities that mixture algorithms derive for pure components / solvents (labelled tests at the implementation level):
+/// for a family of models `build(idx)` (the model of the original components `idx`, in that order, built directly from records)
+/// every permutation of three components must give the same Henry constants, pure-component vapor pressures, critical points,
+/// pure-liquid fugacity coefficients and activity coefficients (re-indexed), and each of them must be the value of the pure /
+/// binary model built directly.
+fn derived_family<R: Residual + 'static>(fam: &str, build: &dyn Fn(&[usize]) -> Arc<R>, t_h: f64, t_act: f64, p_act: f64, fails: &mut Vec<Value>, count: &mut usize) {
+    use feos_core::{Contributions, DensityInitialization, PhaseEquilibrium, ReferenceSystem, SolverOptions, State};
+    use quantity::{Moles, Pressure, Temperature};
+    let perms: [[usize; 3]; 6] = [[0, 1, 2], [0, 2, 1], [1, 0, 2], [1, 2, 0], [2, 0, 1], [2, 1, 0]];
+    let close = |a: f64, b: f64, tol: f64| (a - b).abs() <= tol * a.abs().max(b.abs()).max(1e-300);
+    let t = Temperature::from_reduced(t_h);
+    // reference values from directly built pure / binary models
+    let psat: Vec<Option<f64>> = (0..3)
+        .map(|i| PhaseEquilibrium::pure(&build(&[i]), t, None, SolverOptions::default()).ok().map(|v| v.vapor().pressure(Contributions::Total).to_reduced()))
+        .collect();
+    let tc: Vec<Option<f64>> = (0..3).map(|i| State::critical_point(&build(&[i]), None, None, SolverOptions::default()).ok().map(|s| s.temperature.to_reduced())).collect();
+    for perm in perms.iter() {
+        let m = build(perm);
+        // pure-component vapor pressures and critical temperatures inside the mixture model
+        let vp = PhaseEquilibrium::vapor_pressure(&m, t);
+        for a in 0..3 {
+            *count += 1;
+            let got = vp[a].map(|p| p.to_reduced());
+            let want = psat[perm[a]];
+            let ok = match (got, want) { (Some(x), Some(y)) => close(x, y, 1e-7), (None, None) => true, _ => false };
+            if !ok {
+                fails.push(json!({"family": fam, "quantity": "PhaseEquilibrium::vapor_pressure", "order": perm, "position": a, "got": got, "pure_model": want, "T": t_h}));
+            }
+        }
+        if let Ok(cps) = State::critical_point_pure(&m, None, SolverOptions::default()) {
+            for a in 0..3 {
+                *count += 1;
+                let got = cps[a].temperature.to_reduced();
+                if let Some(want) = tc[perm[a]] {
+                    if !close(got, want, 1e-6) {
+                        fails.push(json!({"family": fam, "quantity": "State::critical_point_pure", "order": perm, "position": a, "got": got, "pure_model": want}));
+                    }
+                }
+            }
+        }
+        // Henry constants: mixed solvent (one solute) and pure solvent (two solutes), compared with the identity order / the binary model
+        for solute in 0..3 {
+            let mut x_orig = [0.4, 0.6, 0.0];
+            // place the zero at `solute`, keep the 0.4/0.6 of the two solvents in ascending original order
+            let solv: Vec<usize> = (0..3).filter(|&i| i != solute).collect();
+            x_orig[solute] = 0.0; x_orig[solv[0]] = 0.4; x_orig[solv[1]] = 0.6;
+            let x_ref = Array1::from_vec(x_orig.to_vec());
+            let x_perm = Array1::from_vec(perm.iter().map(|&i| x_orig[i]).collect::<Vec<_>>());
+            let h_ref = State::henrys_law_constant(&build(&[0, 1, 2]), t, &x_ref).ok().map(|h| h.to_reduced()[0]);
+            let h_perm = State::henrys_law_constant(&m, t, &x_perm).ok().map(|h| h.to_reduced()[0]);
+            *count += 1;
+            let ok = match (h_perm, h_ref) { (Some(x), Some(y)) => close(x, y, 1e-6), (None, None) => true, _ => false };
+            if !ok {
+                fails.push(json!({"family": fam, "quantity": "State::henrys_law_constant (mixed solvent)", "order": perm, "molefracs": x_perm.to_vec(), "got": h_perm, "identity_order": h_ref, "T": t_h}));
+            }
+        }
+        for solvent in 0..3 {
+            let x_perm = Array1::from_vec(perm.iter().map(|&i| if i == solvent { 1.0 } else { 0.0 }).collect::<Vec<_>>());
+            let h = State::henrys_law_constant(&m, t, &x_perm).ok().map(|h| h.to_reduced().to_vec());
+            let solutes: Vec<usize> = perm.iter().cloned().filter(|&i| i != solvent).collect();
+            for (k, &su) in solutes.iter().enumerate() {
+                *count += 1;
+                let want = State::henrys_law_constant_binary(&build(&[su, solvent]), t).ok().map(|h| h.to_reduced());
+                let got = h.as_ref().map(|h| h[k]);
+                let ok = match (got, want) { (Some(x), Some(y)) => close(x, y, 1e-6), (None, None) => true, _ => false };
+                if !ok {
+                    fails.push(json!({"family": fam, "quantity": "State::henrys_law_constant (pure solvent) vs the binary model built directly", "order": perm, "solute": su, "solvent": solvent, "got": got, "binary_model": want, "T": t_h}));
+                }
+            }
+        }
+        // pure-liquid fugacity coefficients and activity coefficients at (T, p, x)
+        let x_orig = [0.2, 0.3, 0.5];
+        let mk = |mm: &Arc<R>, order: &[usize]| {
+            State::new_npt(mm, Temperature::from_reduced(t_act), Pressure::from_reduced(p_act), &Moles::from_reduced(Array1::from_vec(order.iter().map(|&i| x_orig[i]).collect::<Vec<_>>())), DensityInitialization::Liquid).ok()
+        };
+        if let (Some(sp), Some(s0)) = (mk(&m, perm), mk(&build(&[0, 1, 2]), &[0, 1, 2])) {
+            if let (Ok(lp), Ok(l0), Ok(gp), Ok(g0)) = (sp.ln_phi_pure_liquid(), s0.ln_phi_pure_liquid(), sp.ln_symmetric_activity_coefficient(), s0.ln_symmetric_activity_coefficient()) {
+                for a in 0..3 {
+                    *count += 2;
+                    if !((lp[a] - l0[perm[a]]).abs() <= 1e-7 * (1.0 + l0[perm[a]].abs())) {
+                        fails.push(json!({"family": fam, "quantity": "State::ln_phi_pure_liquid", "order": perm, "position": a, "got": lp[a], "identity_order": l0[perm[a]]}));
+                    }
+                    if !((gp[a] - g0[perm[a]]).abs() <= 1e-7 * (1.0 + g0[perm[a]].abs())) {
+                        fails.push(json!({"family": fam, "quantity": "State::ln_symmetric_activity_coefficient", "order": perm, "position": a, "got": gp[a], "identity_order": g0[perm[a]]}));
+                    }
+                }
+            }
+            // the pure-liquid fugacity coefficient is that of the pure model built directly
+            if let Ok(lp) = sp.ln_phi_pure_liquid() {
+                for a in 0..3 {
+                    if let Ok(ps) = State::new_npt(&build(&[perm[a]]), Temperature::from_reduced(t_act), Pressure::from_reduced(p_act), &Moles::from_reduced(Array1::from_vec(vec![1.0])), DensityInitialization::Liquid) {
+                        *count += 1;
+                        let want = ps.ln_phi()[0];
+                        if !((lp[a] - want).abs() <= 1e-7 * (1.0 + want.abs())) {
+                            fails.push(json!({"family": fam, "quantity": "State::ln_phi_pure_liquid vs the pure model built directly", "order": perm, "position": a, "got": lp[a], "pure_model": want}));
+                        }
+                    }
+                }
+            }
+        }
+    }
+}
+
+/// `EquationOfState::subset` (ideal-gas part and residual part together) for every ordered subset of three components against the
+/// equation of state built directly from the listed records: total heat capacity, entropy and enthalpy
+fn derived_eos_subset(fails: &mut Vec<Value>, count: &mut usize) {
+    use feos::ideal_gas::{Joback, JobackRecord};
+    use feos_core::parameter::{Identifier, PureRecord};
+    use feos_core::{Contributions, EquationOfState, ReferenceSystem, State};
+    use quantity::{Moles, Temperature, Volume};
+    let jrec = |i: usize| PureRecord::new(Identifier::default(), 1.0, JobackRecord::new(25.0 + 8.0 * i as f64, 0.12 - 0.02 * i as f64, 3e-5 + 1e-5 * i as f64, -2e-8, 4e-12));
+    let build = |idx: &[usize]| {
+        let ig = Arc::new(Joback::from_records(idx.iter().map(|&i| jrec(i)).collect(), None).unwrap());
+        Arc::new(EquationOfState::new(ig, Arc::new(PengRobinson::new(Arc::new(configs::peng_robinson_params_idx(idx))))))
+    };
+    let full = build(&[0, 1, 2]);
+    let lists: Vec<Vec<usize>> = vec![vec![0], vec![2], vec![0, 1], vec![1, 0], vec![2, 0], vec![0, 2], vec![2, 1], vec![1, 2, 0], vec![2, 1, 0], vec![0, 1, 2], vec![2, 0, 1]];
+    for l in lists {
+        let sub = Arc::new(full.subset(&l));
+        let direct = build(&l);
+        let n: Vec<f64> = l.iter().map(|&i| 0.3 + 0.4 * i as f64).collect();
+        for (t, v) in [(350.0, 2.0e4), (480.0, 600.0)] {
+            let mk = |m: &Arc<EquationOfState<Joback, PengRobinson>>| State::new_nvt(m, Temperature::from_reduced(t), Volume::from_reduced(v * n.iter().sum::<f64>()), &Moles::from_reduced(Array1::from_vec(n.clone()))).ok();
+            if let (Some(a), Some(b)) = (mk(&sub), mk(&direct)) {
+                let tot = Contributions::Total;
+                let qa = [a.molar_isobaric_heat_capacity(tot).to_reduced(), a.molar_entropy(tot).to_reduced(), a.molar_enthalpy(tot).to_reduced(), a.molar_isobaric_heat_capacity(Contributions::Residual).to_reduced()];
+                let qb = [b.molar_isobaric_heat_capacity(tot).to_reduced(), b.molar_entropy(tot).to_reduced(), b.molar_enthalpy(tot).to_reduced(), b.molar_isobaric_heat_capacity(Contributions::Residual).to_reduced()];
+                for (k, nm) in ["molar_isobaric_heat_capacity(Total)", "molar_entropy(Total)", "molar_enthalpy(Total)", "molar_isobaric_heat_capacity(Residual)"].iter().enumerate() {
+                    *count += 1;
+                    if !((qa[k] - qb[k]).abs() <= 1e-10 * qa[k].abs().max(qb[k].abs()).max(1.0)) {
+                        fails.push(json!({"family": "EquationOfState<Joback, PengRobinson>", "quantity": format!("{nm} of subset({l:?}) vs the equation of state built directly"), "subset": qa[k], "direct": qb[k], "T": t, "moles": n}));
+                    }
+                }
+            }
+        }
+    }
+}
+
+/// 1 bar in reduced units (K / A^3)
+const BAR: f64 = 1e5 / 1.380649e-23 / 1e30;
+
+fn derived(full: bool) -> Value {
+    let mut fails = Vec::new();
+    let mut count = 0usize;
+    derived_family("PengRobinson", &|idx: &[usize]| Arc::new(PengRobinson::new(Arc::new(configs::peng_robinson_params_idx(idx)))), 300.0, 300.0, 20.0 * BAR, &mut fails, &mut count);
+    let names = ["propane", "butane", "hexane"];
+    derived_family("PcSaft", &|idx: &[usize]| Arc::new(PcSaft::new(Arc::new(pcsaft_from_idx(&names, idx, "gross2001.json", 0.01)))), 310.0, 310.0, 20.0 * BAR, &mut fails, &mut count);
+    if full {
+        let names = ["water", "methanol", "ethanol"];
+        derived_family("PcSaft (associating)", &|idx: &[usize]| Arc::new(PcSaft::new(Arc::new(pcsaft_from_idx(&names, idx, "gross2002.json", 0.01)))), 330.0, 330.0, 20.0 * BAR, &mut fails, &mut count);
+    }
+    derived_eos_subset(&mut fails, &mut count);
+    json!({"comparisons": count, "failures": fails})
+}
+
 pub fn run(out_dir: &str, tier: &str, seed: u64, only: Option<String>) -> Value {
     let full = tier == "thorough";
     let k_states = if full { 4 } else { 2 };
@@ -508,7 +664,8 @@ pub fn run(out_dir: &str, tier: &str, seed: u64, only: Option<String>) -> Value 
             "states": used, "f64": {"states": k_f64, "worst_rel": worst, "failures": fails}, "max_density_failures": rho_fail,
         }));
     }
-    json!({"property": "C09", "tier": tier, "seed": seed, "prec": prec, "cases": results})
+    let der = if only.as_ref().map_or(true, |o| o == "derived") { derived(full) } else { json!({"comparisons": 0, "failures": []}) };
+    json!({"property": "C09", "tier": tier, "seed": seed, "prec": prec, "cases": results, "derived": der})
 }
 
 fn main() {
